@@ -10,6 +10,7 @@
 (* "meta" records carry two p-value vectors that must agree (invariances).    *)
 EXTENDS NistStats, TraceBase
 VARIABLE tid
+Close(a, b) == Abs(a - b) <= 2        \* micro units (values are at most 10^6): 2e-6 absolute
 HasBits(r) == "bits" \in DOMAIN r.args
 Seq2Fun(q, lo) == [v \in lo..(lo + Len(q) - 1) |-> q[v - lo + 1]]
 StatOk(r) ==
@@ -22,7 +23,15 @@ StatOk(r) ==
                                           st.m = p[1] /\ Seq2Fun(st.bins, p[2]) = LongestRunBins(t)
        [] r.args.test = "RandomWalk" -> /\ st.zf = CusumForward(t) /\ st.zb = CusumBackward(t) /\ st.J = Cycles(t)
                                         /\ \A x \in 1..4 : st.visits_pos[x] = Visits(t, x) /\ st.visits_neg[x] = Visits(t, 0 - x)
+       [] r.args.test = "LinearComplexityScatter" ->
+            /\ Len(st.sizes) = r.args.par
+            /\ \A i \in 1..Len(st.sizes) : st.sizes[i] = ScatterSize(Len(t), r.args.par, i - 1)
        [] OTHER -> TRUE
+\* the same call repeated in a fresh process after other calls of the same process must give the same p-values
+VPure(r) == IF r.raised # "none" THEN "Total"
+            ELSE IF Len(r.obs.pa) # Len(r.obs.pb) THEN "IndependentOfEarlierCalls"
+            ELSE IF \E i \in 1..Len(r.obs.pa) : ~Close(r.obs.pa[i], r.obs.pb[i]) THEN "IndependentOfEarlierCalls"
+            ELSE "ok"
 VStat(r) ==
   LET test == r.args.test
       n == r.args.n
@@ -35,13 +44,12 @@ VStat(r) ==
      ELSE IF HasBits(r) /\ ~StatOk(r) THEN "IntegerStatistic"
      ELSE IF ~r.obs.formula_ok THEN "PValueFormula"
      ELSE "ok"
-Close(a, b) == Abs(a - b) <= 2        \* micro units (values are at most 10^6): 2e-6 absolute
 VMeta(r) == IF r.raised # "none" THEN "Total"
             ELSE IF Len(r.obs.pa) # Len(r.obs.pb) THEN "InvariantUnderTransformation"
             ELSE IF \E i \in 1..Len(r.obs.pa) : ~Close(r.obs.pa[i], r.obs.pb[i]) THEN "InvariantUnderTransformation"
             ELSE "ok"
 VTable(r) == IF r.raised # "none" THEN "Total" ELSE IF ~r.obs.ok THEN "EmbeddedTableMatchesExactDistribution" ELSE "ok"
-Verdict(r) == CASE r.ev = "stat" -> VStat(r) [] r.ev = "meta" -> VMeta(r) [] r.ev = "table" -> VTable(r) [] OTHER -> "UnknownEvent"
+Verdict(r) == CASE r.ev = "stat" -> VStat(r) [] r.ev = "meta" -> VMeta(r) [] r.ev = "pure" -> VPure(r) [] r.ev = "table" -> VTable(r) [] OTHER -> "UnknownEvent"
 TInit == tid = 1 /\ RegInit /\ Init
 TNext == /\ tid <= NRecs
          /\ LET v == Verdict(Recs[tid]) IN Check(tid, Recs[tid], v, v = "ok")
